@@ -749,15 +749,18 @@ def _node_representer(dumper, node):
                     return dumper.represent_scalar(tag, str(data), style=('|' if '\n' in data else '"'))
                 with dumper.force_unquoted():
                     if isinstance(data, ConfigScalar):
-                        base = data._dyn_base(data)
+                        base = data._get_native_value()
                         if isinstance(base, float):
                             # the way pyyaml writes floats ('.inf', '.nan', '1.0e+22'): repr() gives text which is read back as a string
                             return dumper.represent_scalar(tag, dumper.represent_float(base).value)
+                        if not isinstance(base, (int, type(None))):
+                            # (dates...) likewise
+                            return dumper.represent_scalar(tag, dumper.represent_data(base).value)
                         return dumper.represent_scalar(tag, repr(base))
                     return dumper.represent_scalar(tag, str(data))
             else:
                 if isinstance(data, ConfigScalar):
-                    return dumper.represent_data(data._dyn_base(data))
+                    return dumper.represent_data(data._get_native_value())
                 else:
                     # fallback to str
                     return dumper.represent_scalar('tag:yaml.org,2002:str', str(data))
